@@ -170,9 +170,10 @@ def check(ctx):
     rb = ctx.body(RECV, rule=RK)
     if rb is not None:
         ran = ctx.an(rb)
-        gt = flow.Graph(rb, flags=[(1, "keep_alive")], pinned={(1, "keep_alive"): True})
+        kf = ctx.captured_flag(rb, "keep_alive")
+        gt = ctx.graph_with(rb, [kf], pinned={kf: True})
         run_dfa(ctx, rb, spec("c06_recv_dfa.json"), RK, "receive_packet[keep_alive=true]", graph=gt)
-        gf = flow.Graph(rb, flags=[(1, "keep_alive")], pinned={(1, "keep_alive"): False})
+        gf = ctx.graph_with(rb, [kf], pinned={kf: False})
         rev = events.extract(ctx, rb)
         send_bbs = [bb for bb, es in rev.items() if any(e[1].startswith(("send:", "call:localize")) for e in es)]
         reach = set(gf.bb(n) for n in gf.reachable())
